@@ -334,7 +334,8 @@ package mqtt
 // verif:def lvl0(f string) string = idx(f, 47) == -1 ? f : f[0:idx(f, 47)]
 // verif:def rest1(f string) string = f[idx(f, 47)+1:]
 // verif:def lvl1(f string) string = idx(rest1(f), 47) == -1 ? rest1(f) : rest1(f)[0:idx(rest1(f), 47)]
-// verif:func mqtt.isolateParticle
+// (pure: the function only slices its argument; it allocates nothing and writes nothing)
+// verif:func mqtt.isolateParticle pure
 //@ requires 0 <= d && d < 4611686018427387904
 //@ axiom general-level: 0 <= d && d < nlevels(filter) ==> particle == level(filter, d) && (hasNext <==> d < nlevels(filter) - 1)
 //@ axiom past-the-last-level: d >= nlevels(filter) && nlevels(filter) >= 1 ==> particle == level(filter, nlevels(filter) - 1) && !hasNext
@@ -531,14 +532,6 @@ package mqtt
 // verif:func mqtt.Subscriptions.GetAll trusted
 //@ ensures r0 != nil && fresh(r0)
 //@ ensures forall k string :: (has(r0, k) <==> has(s.internal, k)) && r0[k] == s.internal[k]
-// verif:func mqtt.Subscriptions.Add trusted
-//@ modifies entries(s.internal)
-//@ ensures has(s.internal, id)
-// verif:func mqtt.TopicsIndex.Subscribe trusted
-//@ modifies subsview, nsubs
-//@ ensures r0 <==> !old(subsview[client][subscription.Filter])
-//@ ensures subsview[client][subscription.Filter]
-//@ ensures nsubs == old(nsubs) + (r0 ? 1 : 0)
 
 // verif:func mqtt.Server.inheritClientSession modifies=all
 //@ requires validCl(cl) && validSrv(s) && s.Clients != nil && s.Topics != nil && cl.State.Subscriptions != nil && cl.ops.options != nil && cl.ops.options.Capabilities != nil
@@ -639,13 +632,6 @@ package mqtt
 //@ modifies nev, evkind, evcl, evid
 //@ ensures ev1(EV_UNSUBSCRIBED(), cl, pk.PacketID)
 // (mqtt.Server.publishRetainedToClient: see the section "Retained store (C05)")
-// verif:func mqtt.Subscriptions.Delete trusted
-//@ modifies entries(s.internal)
-// verif:func mqtt.TopicsIndex.Unsubscribe trusted
-//@ modifies subsview, nsubs
-//@ ensures r0 ==> nsubs == old(nsubs) - 1
-//@ ensures !r0 ==> nsubs == old(nsubs)
-//@ ensures !subsview[client][filter]
 
 // reason code the property prescribes for filter f requested with options sub (v5 value; MQTT 3 maps every failure to 0x80)
 // verif:def subCode5(s *Server, cl *Client, sub Subscription) byte = !validSub(sub.Filter) ? 143 : (sub.NoLocal && sharedFilter(sub.Filter) ? 130 : (!aclOK(cl, sub.Filter, false) ? (s.Options.Capabilities.Compatibilities.ObscureNotAuthorized ? 128 : 135) : (sub.Qos > s.Options.Capabilities.MaximumQos ? s.Options.Capabilities.MaximumQos : sub.Qos)))
@@ -653,7 +639,7 @@ package mqtt
 
 // verif:func mqtt.Server.processSubscribe modifies=all
 //@ ensures table-object-kept: cl.State.Inflight == old(cl.State.Inflight)
-//@ requires validCl(cl) && validSrv(s) && s.Topics != nil && cl.State.Subscriptions != nil && cl.State.Subscriptions.internal != nil && s.Options.Capabilities.MaximumQos <= 2
+//@ requires validCl(cl) && validSrv(s) && s.Topics != nil && s.Topics.root != nil && cl.State.Subscriptions != nil && cl.State.Subscriptions.internal != nil && s.Options.Capabilities.MaximumQos <= 2
 //@ requires forall j int :: 0 <= j && j < len(pk.Filters) ==> pk.Filters[j].Qos <= 2
 //@ ensures C07-suback-or-error: r0 == nil ==> sentOne(cl) && lastSent(cl).FixedHeader.Type == Suback && lastSent(cl).PacketID == pk.PacketID && len(lastSent(cl).ReasonCodes) == len(pk.Filters)
 //@ ensures C04-C17-C30-one-code-per-filter-as-prescribed: r0 == nil && !old(has(ifl(cl), pk.PacketID)) ==> (forall j int :: 0 <= j && j < len(pk.Filters) ==> lastSent(cl).ReasonCodes[j] == subCode(s, cl, pk.Filters[j]))
@@ -663,7 +649,7 @@ package mqtt
 //@ invariant codes: !old(has(ifl(cl), pk.PacketID)) ==> (forall j int :: 0 <= j && j <= rangeindex ==> reasonCodes[j] == subCode(s, cl, pk.Filters[j]))
 //@ invariant v3codes: cl.Properties.ProtocolVersion < 5 ==> (forall j int :: 0 <= j && j <= rangeindex ==> reasonCodes[j] <= 2 || reasonCodes[j] == 128)
 //@ invariant counter: s.Info.Subscriptions - old(s.Info.Subscriptions) == nsubs - old(nsubs)
-//@ invariant valid: validCl(cl) && s != nil && s.Info != nil && s.hooks != nil && s.Options != nil && s.Options.Capabilities != nil && s.Options.Capabilities.Compatibilities != nil && s.Topics != nil && cl.State.Subscriptions != nil && cl.State.Subscriptions.internal != nil && sentNone(cl)
+//@ invariant valid: validCl(cl) && s != nil && s.Info != nil && s.hooks != nil && s.Options != nil && s.Options.Capabilities != nil && s.Options.Capabilities.Compatibilities != nil && s.Topics != nil && s.Topics.root != nil && cl.State.Subscriptions != nil && cl.State.Subscriptions.internal != nil && sentNone(cl)
 //@ invariant bounded: old(s.Info.Subscriptions) <= s.Info.Subscriptions && s.Info.Subscriptions <= old(s.Info.Subscriptions) + rangeindex + 1
 //@ invariant version: cl.Properties.ProtocolVersion == old(cl.Properties.ProtocolVersion)
 
@@ -969,7 +955,9 @@ package mqtt
 // the index operations RetainMessage uses: they build / prune nodes and never touch the retained store
 // verif:func mqtt.TopicsIndex.set trusted
 //@ modifies allentries("string", "*particle")
-//@ ensures r0 != nil
+//@ ensures r0 != nil && r0 == pathNode(topic, d) && r0.parent != nil && r0.subscriptions != nil && r0.subscriptions.internal != nil && r0.shared != nil && r0.inlineSubscriptions != nil && r0.inlineSubscriptions.internal != nil
+//@ ensures fresh(r0) || old(allocated(r0))
+//@ ensures fresh(r0) ==> emptyNode(r0) && (forall c string :: !has(r0.subscriptions.internal, c)) && (forall k int :: !has(r0.inlineSubscriptions.internal, k))
 //@ ensures old(wfTrie() && nodesValid()) ==> wfTrie() && nodesValid()
 // verif:func mqtt.TopicsIndex.RetainMessage
 //@ requires x.Retained != nil && x.Retained.internal != nil && x.root != nil && wfTrie() && nodesValid()
@@ -1000,3 +988,78 @@ package mqtt
 //@ callsite mqtt.Server.publishToClient C04-retained-deliveries-keep-their-retain-flag: arg2.FwdRetainedFlag && arg2.Filter == sub.Filter && arg2.Qos == sub.Qos
 // verif:loop mqtt.Server.publishRetainedToClient 1
 //@ invariant validClOut(cl) && validSrv(s) && s.Options.Capabilities.MaximumQos <= 2 && sub.Qos <= 2 && !has(ifl(cl), 0) && cl.Properties.ProtocolVersion <= 5 && s.Log != nil
+
+// ======================================================================================
+// Topic index: serial specification of the mutators (C31) -- subscribe / unsubscribe report whether the
+// subscription previously existed; pruning (trim, above) never removes a node that still holds something
+// ======================================================================================
+// pathNode(s, d): the node at the end of the path spelled by the levels of s from level d on, as set() creates it or seek() finds it
+// verif:spec pathNode(string, int) *particle
+// verif:func mqtt.TopicsIndex.seek trusted pure
+//@ ensures r0 == nil || (r0 == pathNode(filter, d) && r0.parent != nil && r0.subscriptions != nil && r0.shared != nil && r0.inlineSubscriptions != nil && allocated(r0))
+// the tables of a node: plain map wrappers
+// verif:func mqtt.Subscriptions.Get pure
+//@ ensures ok <==> has(s.internal, id)
+//@ ensures ok ==> val == s.internal[id]
+// verif:func mqtt.Subscriptions.Add
+//@ requires s.internal != nil
+//@ modifies entries(s.internal)
+//@ ensures has(s.internal, id) && s.internal[id] == val
+//@ ensures forall k string :: k != id ==> (has(s.internal, k) <==> old(has(s.internal, k))) && s.internal[k] == old(s.internal[k])
+// verif:func mqtt.Subscriptions.Delete
+//@ modifies entries(s.internal)
+//@ ensures !has(s.internal, id)
+//@ ensures forall k string :: k != id ==> (has(s.internal, k) <==> old(has(s.internal, k))) && s.internal[k] == old(s.internal[k])
+// verif:func mqtt.InlineSubscriptions.Get pure
+//@ ensures ok <==> has(s.internal, id)
+//@ ensures ok ==> val == s.internal[id]
+// verif:func mqtt.InlineSubscriptions.Add
+//@ requires s.internal != nil
+//@ modifies entries(s.internal)
+//@ ensures has(s.internal, val.Identifier) && s.internal[val.Identifier] == val
+//@ ensures forall k int :: k != val.Identifier ==> (has(s.internal, k) <==> old(has(s.internal, k))) && s.internal[k] == old(s.internal[k])
+// verif:func mqtt.InlineSubscriptions.Delete
+//@ modifies entries(s.internal)
+//@ ensures !has(s.internal, id)
+//@ ensures forall k int :: k != id ==> (has(s.internal, k) <==> old(has(s.internal, k))) && s.internal[k] == old(s.internal[k])
+// shared-subscription tables (group -> client -> subscription): abstract membership
+// verif:spec sharedHas(ref, string, string) bool
+// verif:func mqtt.SharedSubscriptions.Get trusted pure
+//@ ensures ok == sharedHas(s, group, id)
+// verif:func mqtt.SharedSubscriptions.Add trusted
+//@ modifies entries(s.internal), allentries("string", "packets.Subscription"), s.nshared
+// verif:func mqtt.SharedSubscriptions.Delete trusted
+//@ modifies entries(s.internal), allentries("string", "packets.Subscription"), s.nshared
+
+// verif:def isShare(f string) bool = foldEq(lvl0(f), "$SHARE")
+// verif:def subNode(f string) = pathNode(f, 0)
+// verif:func mqtt.TopicsIndex.Subscribe
+//@ requires x.root != nil
+//@ modifies subsview, nsubs, allentries("string", "*particle"), allentries("string", "packets.Subscription"), allentries("string", "map[string]packets.Subscription"), all(nshared)
+// the abstract view of the index that the handlers use (ghost; tied to the nodes by the index's representation invariant, which is assumed)
+//@ axiom r0 <==> !old(subsview[client][subscription.Filter])
+//@ axiom subsview[client][subscription.Filter]
+//@ axiom nsubs == old(nsubs) + (r0 ? 1 : 0)
+//@ ensures C31-subscribe-reports-whether-the-subscription-is-new: !isShare(subscription.Filter) ==> (r0 <==> (fresh(subNode(subscription.Filter)) || !old(has(subNode(subscription.Filter).subscriptions.internal, client))))
+//@ ensures C31-subscription-stored-at-the-filters-node: !isShare(subscription.Filter) ==> has(subNode(subscription.Filter).subscriptions.internal, client) && subNode(subscription.Filter).subscriptions.internal[client] == subscription
+//@ ensures C31-other-clients-subscriptions-at-that-node-untouched: !isShare(subscription.Filter) && !fresh(subNode(subscription.Filter)) ==> (forall c string :: c != client ==> (has(subNode(subscription.Filter).subscriptions.internal, c) <==> old(has(subNode(subscription.Filter).subscriptions.internal, c))) && subNode(subscription.Filter).subscriptions.internal[c] == old(subNode(subscription.Filter).subscriptions.internal[c]))
+
+// verif:def unsubNode(f string) = pathNode(f, isShare(f) ? 2 : 0)
+// verif:func mqtt.TopicsIndex.Unsubscribe
+//@ requires x.root != nil && wfTrie() && nodesValid()
+//@ modifies subsview, nsubs, allentries("string", "*particle"), allentries("string", "packets.Subscription"), allentries("string", "map[string]packets.Subscription"), all(nshared)
+//@ axiom r0 ==> nsubs == old(nsubs) - 1
+//@ axiom !r0 ==> nsubs == old(nsubs)
+//@ axiom !subsview[client][filter]
+//@ ensures C31-unsubscribe-reports-whether-the-subscription-existed: !isShare(filter) && r0 ==> old(has(pathNode(filter, 0).subscriptions.internal, client))
+//@ ensures C31-unsubscribe-of-a-shared-subscription-reports-whether-it-existed: isShare(filter) && r0 ==> old(sharedHas(pathNode(filter, 2).shared, lvl1(filter), client))
+
+// verif:func mqtt.TopicsIndex.InlineSubscribe
+//@ requires x.root != nil
+//@ modifies allentries("string", "*particle"), allentries("int", "InlineSubscription")
+//@ ensures C31-inline-subscribe-reports-whether-the-subscription-is-new: r0 <==> (fresh(subNode(subscription.Filter)) || !old(has(subNode(subscription.Filter).inlineSubscriptions.internal, subscription.Identifier)))
+//@ ensures C31-inline-subscription-stored-at-the-filters-node: has(subNode(subscription.Filter).inlineSubscriptions.internal, subscription.Identifier) && subNode(subscription.Filter).inlineSubscriptions.internal[subscription.Identifier] == subscription
+// verif:func mqtt.TopicsIndex.InlineUnsubscribe
+//@ requires x.root != nil && wfTrie() && nodesValid()
+//@ modifies allentries("string", "*particle"), allentries("int", "InlineSubscription")
+//@ ensures C31-inline-unsubscribe-reports-whether-the-subscription-existed: r0 ==> old(has(pathNode(filter, 0).inlineSubscriptions.internal, id))
